@@ -188,7 +188,127 @@ func runC18(c *core.Ctx) error {
 	r6 := c.NewRule("R18.6", "S1", "composite comparisons return true only after an iterator reported exhaustion", 2)
 	checkSymmetry(c, prog, r5)
 	checkExhaustion(c, prog, r6)
+	checkRawTextNeverDecides(c, prog)
 	return nil
+}
+
+// checkRawTextNeverDecides (R18.7). Equality of JSON values is decided on
+// decoded values only. (a) In package json, bytes.Equal may compare only what
+// (*jx.Decoder).StrBytes returned (decoded string contents); comparing the raw
+// text of a value decides wrongly whenever a value has two spellings (escapes
+// in strings) and accepts malformed text without parsing it. (b) json.Equal has
+// no constant-true return of its own: every `true` comes out of compare.equal,
+// which has consumed and thereby validated both documents. (c) In the generator
+// (package gen) two schema numbers are never judged equal because their float64
+// approximations are equal.
+func checkRawTextNeverDecides(c *core.Ctx, prog *core.Prog) {
+	r := c.NewRule("R18.7", "S1", "raw JSON text and float64 approximations never decide equality", 3)
+	jsonPkg := prog.ByPath[pkgJSON]
+	fromStrBytes := func(v ssa.Value) bool {
+		ex, ok := v.(*ssa.Extract)
+		if !ok || ex.Index != 0 {
+			return false
+		}
+		call, ok := ex.Tuple.(*ssa.Call)
+		return ok && core.CalleeName(call.Common()) == "(*github.com/go-faster/jx.Decoder).StrBytes"
+	}
+	n := 0
+	for _, top := range core.PkgFuncs(prog.SSA, jsonPkg) {
+		inEqual := top.Name() == "Equal" && top.Signature.Recv() == nil
+		if top.Signature.Recv() != nil && recvName(top.Signature.Recv().Type()) == "compare" {
+			inEqual = true
+		}
+		if !inEqual {
+			continue
+		}
+		for _, fn := range core.AllFuncs(top) {
+			for _, call := range core.Calls(fn) {
+				if !core.IsCallTo(call.Common(), "bytes", "Equal") && !core.IsCallTo(call.Common(), "bytes", "Compare") {
+					continue
+				}
+				n++
+				a := call.Common().Args
+				if fromStrBytes(a[0]) && fromStrBytes(a[1]) {
+					r.Pass(fmt.Sprintf("%s: bytes.Equal compares decoded string contents", fn.Name()))
+				} else {
+					r.Fail("raw-text-compare:"+fnKeyFull(fn), c.Pos(call.Pos()), fmt.Sprintf("%s compares undecoded JSON text with bytes.Equal: \"\\u0061\" and \"a\" are the same string but different text, and identical malformed texts are accepted without being parsed", fn.Name()))
+				}
+			}
+		}
+	}
+	if eq := prog.Func(pkgJSON, "Equal"); eq == nil {
+		r.Undecided("anchor:Equal", "-", "json.Equal not found")
+	} else {
+		okRet := true
+		for _, b := range eq.Blocks {
+			ret, isRet := b.Instrs[len(b.Instrs)-1].(*ssa.Return)
+			if !isRet || len(ret.Results) != 2 {
+				continue
+			}
+			if isConstBool(ret.Results[0], true) {
+				okRet = false
+				r.Fail("Equal:constant-true", c.Pos(ret.Pos()), "json.Equal returns true without going through compare.equal: the texts were not parsed, so malformed input compares equal to itself and the answer changes with trailing whitespace")
+			}
+		}
+		if okRet {
+			r.Pass("json.Equal: every true result comes from compare.equal")
+		}
+	}
+	// (c) generator
+	if gp, err := c.Program("./gen"); err != nil {
+		r.Undecided("load:gen", "-", err.Error())
+	} else {
+		nf := 0
+		for _, top := range core.PkgFuncs(gp.SSA, gp.ByPath[pkgGen]) {
+			for _, fn := range core.AllFuncs(top) {
+				for _, b := range fn.Blocks {
+					for _, in := range b.Instrs {
+						bo, ok := in.(*ssa.BinOp)
+						if !ok || !isFloat(bo.X.Type()) {
+							continue
+						}
+						if !fromNumFloat(bo.X, 0) && !fromNumFloat(bo.Y, 0) {
+							continue
+						}
+						nf++
+						if bo.Op == token.EQL || bo.Op == token.NEQ {
+							r.Fail("float-equality:"+fnKeyFull(fn), c.Pos(bo.Pos()), fmt.Sprintf("%s compares the float64 approximations of two schema numbers for equality: bounds that differ beyond float64 precision (9007199254740993 vs 9007199254740992) are judged the same and one of them is dropped", fn.Name()))
+						} else {
+							r.Ob(true, "")
+						}
+					}
+				}
+			}
+		}
+		r.Note("float comparisons on jx.Num.Float64 results in package gen: %d (orderings only)", nf)
+	}
+}
+
+func fromNumFloat(v ssa.Value, depth int) bool {
+	if depth > 4 {
+		return false
+	}
+	switch x := v.(type) {
+	case *ssa.Extract:
+		if call, ok := x.Tuple.(*ssa.Call); ok {
+			return core.CalleeName(call.Common()) == "(github.com/go-faster/jx.Num).Float64"
+		}
+	case *ssa.Phi:
+		for _, e := range x.Edges {
+			if fromNumFloat(e, depth+1) {
+				return true
+			}
+		}
+	case *ssa.UnOp:
+		if al, ok := x.X.(*ssa.Alloc); ok {
+			for _, ref := range *al.Referrers() {
+				if st, ok := ref.(*ssa.Store); ok && st.Addr == ssa.Value(al) && fromNumFloat(st.Val, depth+1) {
+					return true
+				}
+			}
+		}
+	}
+	return false
 }
 
 func recvName(t types.Type) string {
